@@ -24,6 +24,7 @@ func genC03(r *simrt.Rand, tier string, idx int) *hx.Program {
 	p.P["seg"] = []int64{1, 29, 64, 100, 257, 1024}[r.Intn(6)]
 	p.P["sticky"] = []int64{0, 30, 70, 90}[r.Intn(4)]
 	p.P["segage_s"] = []int64{0, 0, 3}[r.Intn(3)]
+	p.P["final_ro"] = int64(r.Intn(2)) // a log that is read-only at the end stays so while the rest is committed
 	n := 6 + r.Intn(30)
 	if tier == "thorough" {
 		n = 6 + r.Intn(60)
@@ -41,7 +42,19 @@ func genC03(r *simrt.Rand, tier string, idx int) *hx.Program {
 			msgs += c
 			p.Ops = append(p.Ops, hx.Op{K: "app", S: "A", A: []int64{int64(c), int64(r.Uint64() >> 1)}})
 		case k < 66:
-			p.Ops = append(p.Ops, hx.Op{K: "hw", S: "H", A: []int64{int64(r.Intn(1001))}})
+			// (a third of the moves go all the way to the log end: "caught up" is a state of its own for
+			// read-only ends, parked readers and the replication-factor-1 fast path)
+			f := int64(r.Intn(1001))
+			if r.Pct(33) {
+				f = 1000
+			}
+			// two tasks move the HW (in the server: commit loop, replication-factor-1 fast path, a follower
+			// adopting the leader's value); some calls carry a value below the current one and must be ignored
+			back := int64(0)
+			if r.Pct(15) {
+				back = int64(1 + r.Intn(3))
+			}
+			p.Ops = append(p.Ops, hx.Op{K: "hw", S: []string{"H", "H", "G"}[r.Intn(3)], A: []int64{f, back}})
 		case k < 74:
 			p.Ops = append(p.Ops, hx.Op{K: "ro", S: "T", A: []int64{int64(r.Intn(2))}})
 		case k < 88:
@@ -50,7 +63,7 @@ func genC03(r *simrt.Rand, tier string, idx int) *hx.Program {
 				p.Ops = append(p.Ops, hx.Op{K: "rd", S: "M", A: []int64{int64(r.Intn(1200))}})
 			}
 		default:
-			p.Ops = append(p.Ops, hx.Op{K: "sleep", S: []string{"A", "H", "T", "M"}[r.Intn(4)], A: []int64{int64(1 + r.Intn(4000))}})
+			p.Ops = append(p.Ops, hx.Op{K: "sleep", S: []string{"A", "H", "T", "M", "G"}[r.Intn(5)], A: []int64{int64(1 + r.Intn(4000))}})
 		}
 	}
 	return p
@@ -290,11 +303,14 @@ func execC03(t *testing.T, prog *hx.Program, dec *simrt.Decider, verbose bool) *
 			doneNext = h.next
 			h.s.Logf("appended %d..%d", first, h.next-1)
 		})
-		spawn("H", func(op hx.Op) {
+		moveHW := func(op hx.Op) {
 			if doneNext == 0 {
 				return
 			}
 			nhw := h.hw + op.Arg(0, 0)*(doneNext-1-h.hw)/1000
+			if b := op.Arg(1, 0); b > 0 {
+				nhw = h.hw - b // a stale value: must not lower the HW
+			}
 			if nhw > h.hw {
 				h.hw = nhw
 			}
@@ -303,7 +319,9 @@ func execC03(t *testing.T, prog *hx.Program, dec *simrt.Decider, verbose bool) *
 				h.hwDone = nhw
 			}
 			h.s.Logf("hw -> %d", nhw)
-		})
+		}
+		spawn("H", moveHW)
+		spawn("G", moveHW)
 		spawn("T", func(op hx.Op) {
 			ro = op.Arg(0, 0) == 1
 			log.SetReadonly(ro)
@@ -326,7 +344,7 @@ func execC03(t *testing.T, prog *hx.Program, dec *simrt.Decider, verbose bool) *
 			return
 		}
 		// quiesce: no more appends; commit everything; every reader must catch up
-		if ro {
+		if ro && prog.Param("final_ro", 0) == 0 {
 			log.SetReadonly(false)
 		}
 		if doneNext > 0 {
